@@ -8,7 +8,7 @@ PROPS = {
     "C01": {
         "level": "exploration",
         "steps": [("hv", "C01", {}), ("py", "lsx", "run_c01"), ("hv", "wasmapi", {"_scale": 0.3}), ("hv", "cli", {"_scale": 0.3}), ("py", "san", "cachegrind", "thorough_only"), ("py", "san", "asan", "thorough_only")],
-        "rule": "documents from G-corpus prefix closure, clauses, hostile Unicode, mutations, fixtures, long/nesting families and "
+        "rule": "documents from G-corpus prefix closure, clauses, hostile Unicode, mutations, fixtures, long/nesting families, every White_Space character as separator / text end (family Q) and "
                 "grammar-generated files, through all 29 front-ends (x wrappers, x rule configurations x dialects), each run under a "
                 "crash monitor (catch_unwind + process-death observation), a CPU-time hang monitor and (thorough) instruction-count "
                 "scaling; hostile documents in every language id are also sent to real harper-ls sessions, which must answer each one (no answer / death / > 60 s CPU decided on the server's CPU time); non-trivial = document that yields >= 1 token; distinct = hash(front-end, token-kind sequence)",
@@ -74,7 +74,7 @@ PROPS = {
                 "two documents, optionally a dictionary file already on disk; after every step each document's diagnostics are compared with a reference server running on dictionary files "
                 "written by the checker, and the server's dictionary files are re-read by an independent line parser; (2) crash points: the add command is traced with strace -P <dictionary "
                 "file>, then repeated with SIGKILL injected on entry to every syscall that touches the file (3 file sizes quick, 10 thorough, incl. > 8 KiB so the writer flushes more than once); "
-                "the file must reload to the old or the new word set and a new server must start on it; (3) the JS API: import_words histories, every imported word is listed by export_words and accepted by the linter; distinct = history shape + (size, syscall, n) kill points",
+                "the file must reload to the old or the new word set and a new server must start on it; (3) harper-cli lint with --user-dict-path / --file-dict-path on word lists of ten shapes (LF, CRLF, mixed, no final newline, blank lines, duplicates, one word): listed words accepted, another file's and unlisted words reported as with no dictionary; (4) the JS API: import_words histories, every imported word is listed by export_words and accepted by the linter; distinct = history shape + (size, syscall, n) kill points",
         "assumptions": ["process death only (no power loss / page-cache loss: there is no fsync oracle)", "buffers are saved before a word is added (the disk re-read of C09 is not re-litigated here)"],
     },
     "C08": {
@@ -101,7 +101,7 @@ PROPS = {
         "level": "exploration",
         "steps": [("py", "c10", "run")],
         "rule": "syscall audit (strace -f, network class + every file-creating / modifying call + execve) of real harper-ls sessions exercising every notification and command except "
-                "HarperOpen (stdio with configured paths, stdio with default paths, TCP mode) and of an in-process library + JS-API workload; allow-list derived from the settings the client "
+                "HarperOpen (stdio with configured paths, stdio with default paths, TCP mode) (documents: Markdown, Rust, plain-text buffers and files whose text names hosts, ports, bracketed hosts, credentials and shares in every shape the URL lexer knows) and of an in-process library + JS-API workload; allow-list derived from the settings the client "
                 "sent; evaluations = syscalls inspected; distinct = distinct syscall kinds + distinct paths written",
         "assumptions": ["only what the exercised binaries do is observed; the 'complete resolved dependency set' clause is static and out of reach (a listing of network-capable crates in Cargo.lock is printed, not a verdict)"],
     },
@@ -120,7 +120,7 @@ PROPS = {
         "steps": [("hv", "C12", {}), ("py", "lsx", "run_c12")],
         "rule": "pairs (P, D): P = rule sentence / generated clause / hostile Unicode without double quotes, closed by a terminator and a blank line, "
                 "D = arbitrary further text; compare lints(P++D) with lints(P) + shift(lints(D), |P|) as multisets, all rules on, fresh linter per call; "
-                "the same relation at the language server: P++D, P and D opened as plain-text documents, diagnostics of the whole = those of P + those of D moved down by P's lines (P with astral / combining characters); "
+                "the same relation at the language server: P++D, P and D opened as plain-text documents, diagnostics of the whole = those of P + those of D moved down by P's lines (P with astral / combining characters; two pairs whose whole has 650-900 diagnostics); "
                 "non-trivial = P has >= 1 lint and D is non-empty; distinct = hash(P, D)",
         "assumptions": ["multiset comparison: the statement fixes no order across rules", "cache effects are excluded here (fresh linter per call); they belong to C05"],
     },
@@ -140,7 +140,7 @@ PROPS = {
         "steps": [("hv", "C15", {}), ("hv", "wasmdict", {})],
         "rule": "small families exhaustively: words of length 1..2 over {a,b,B,'}, dictionaries of <= 3 words, all queries of length 0..3, bounds 0..3, caps {1,2,100}, on the mutable, FST "
                 "and two merged back-ends (agreement of every query API incl. *_str variants, union semantics of two-part merges, fuzzy results: real word, true Levenshtein distance by "
-                "an independent usize Wagner-Fischer, bound, order, cap, completeness for lower-case queries); all string pairs of length <= 4 for the distance routine; sampled "
+                "an independent usize Wagner-Fischer, bound, order, cap, completeness for lower-case queries); all string pairs of length <= 4 for the distance routine; words of 50-85 letters with queries 1-3 edits away; for every fuzzy query suggest_correct_spelling must return the same words as fuzzy_match; sampled "
                 "queries on the curated dictionary (re-cased, edited, apostrophe, non-ASCII, empty, 60-300 chars); the merged view of the JS-facing linter after import_words histories "
                 "(every word export_words lists is accepted in that spelling); distinct = hash(query, bound, cap, back-end, dictionary)",
         "assumptions": ["a dictionary's content is what the mutable back-end holds after insertion (case twins share one entry)"],
